@@ -102,7 +102,17 @@ func genWorldKeyed(src *choice.Src, o WOpts, keySeed uint64) *World {
 		w.PreOut = &InFile{Path: w.Out, Content: "// SENTINEL " + fmt.Sprint(src.Draw("sentinel", 1000)) + "\npackage old\n", Mode: []uint32{0644, 0600, 0664, 0755}[src.Draw("premode", 4)]}
 	}
 	if o.LayoutFault && src.Chance("oddout", 1, 6) {
-		switch src.Draw("oddoutk", 11) {
+		switch src.Draw("oddoutk", 13) {
+		case 11, 12:
+			// a chain of symbolic links through several directories with relative targets: -o -> ../store/current -> deep/real.go
+			w.OutKind = "symlink-chain"
+			w.ChainDeep = src.Bool("chain.deep")
+			w.Out = choice.Pick(src, "chainout", []string{"gen/out.go", "gen.go", "a/b/container.go"})
+			if src.Bool("chain.dangling") {
+				w.PreOut = nil // the last hop points at a file that does not exist yet
+			} else {
+				w.PreOut = &InFile{Path: w.Out, Content: strings.Repeat("// SENTINEL old content at the end of the chain\n", 3000) + "package old\n", Mode: 0644}
+			}
 		case 9: // a device whose content never ends
 			w.OutKind, w.Out, w.PreOut = "devzero", "/dev/zero", nil
 		case 10: // a named pipe that some consumer keeps open
@@ -186,7 +196,7 @@ func layoutWorld(src *choice.Src, w *World, cfg *gen.Cfg, o WOpts, post []postMu
 		}
 		contents[i] = y.Render(perm)
 	}
-	layout := src.Draw("layout", 6)
+	layout := src.Draw("layout", 7)
 	names := []string{"10_base.yaml", "20_services.yaml", "30_extra.yaml", "40_local.yaml"}
 	switch layout {
 	case 0: // one directory, one glob
@@ -223,6 +233,18 @@ func layoutWorld(src *choice.Src, w *World, cfg *gen.Cfg, o WOpts, post []postMu
 			w.Files = append(w.Files, InFile{Path: "$stage/${env}_" + names[i], Content: c})
 		}
 		w.Patterns = []string{"$stage/*.yaml"}
+	case 6: // long paths: a deep tree of directories with long names (anything that pads, aligns or shortens them)
+		dir := "configuration-files-of-the-" + strings.Repeat("very-", src.Range("longdir.n", 4, 30)) + "long-named-project/environment.d"
+		for i, c := range contents {
+			w.Files = append(w.Files, InFile{Path: dir + "/" + names[i], Content: c})
+		}
+		if src.Bool("longdir.glob") {
+			w.Patterns = []string{dir + "/*.yaml"}
+		} else {
+			for _, f := range w.Files {
+				w.Patterns = append(w.Patterns, f.Path)
+			}
+		}
 	case 4: // uncleaned spellings and a question-mark glob
 		for i, c := range contents {
 			w.Files = append(w.Files, InFile{Path: "etc/" + names[i], Content: c})
